@@ -365,3 +365,5 @@ def run(ck):
     ck.run_rule("C06.R4", ".blkb/.blkw/.even/.odd/.align fill", 7, rule_R4)
     ck.run_rule("C06.R6", ".ascii/.asciz: charset, <n> bytes, chunk order", 6, rule_R6)
     ck.run_rule("C06.R6e", "string escape table", 10, rule_escapes)
+    from ..rules import partial
+    ck.run_rule("P1", "'.align 0' and other divisions by program values are guarded", 3, partial.rule_P1)
